@@ -254,8 +254,10 @@ class DataSet:
             2: _parse_v2,
         }
 
-        version: int = dictionary.get("version", VERSION)
-        del dictionary["version"]
+        # Work on a copy so that the caller's dictionary can be reused.
+        dictionary = dictionary.copy()
+
+        version: int = dictionary.pop("version", VERSION)
 
         if version > VERSION:
             raise ValueError(f"Unsupported version: {version=} > {VERSION=}")
